@@ -80,6 +80,7 @@ var (
 	noReplay = flag.Bool("noreplay", false, "skip native replay")
 	evidenceOut = flag.String("evidence", "", "evidence file (default <verif>/evidence/<id>.json)")
 	cpuprofile  = flag.String("cpuprofile", "", "write a CPU profile")
+	replayFile  = flag.String("replay", "", "replay a recorded counterexample natively and exit")
 )
 
 func main() {
@@ -88,6 +89,9 @@ func main() {
 		flag.PrintDefaults()
 	}
 	flag.Parse()
+	if *replayFile != "" {
+		os.Exit(replayOnly(*replayFile))
+	}
 	if flag.NArg() != 1 {
 		flag.Usage()
 		os.Exit(2)
@@ -406,4 +410,49 @@ func tail(s string, n int) string {
 		lines = lines[len(lines)-n:]
 	}
 	return strings.Join(lines, "\n")
+}
+
+// replayOnly re-runs a recorded counterexample natively.
+func replayOnly(path string) int {
+	b, err := os.ReadFile(path)
+	if err != nil {
+		fmt.Fprintln(os.Stderr, err)
+		return 2
+	}
+	var rf struct {
+		Property string `json:"property"`
+		Entry    string `json:"entry"`
+		Label    string `json:"label"`
+		Check    string `json:"check"`
+	}
+	if err := json.Unmarshal(b, &rf); err != nil {
+		fmt.Fprintln(os.Stderr, err)
+		return 2
+	}
+	cfgPath := rf.Check
+	if !filepath.IsAbs(cfgPath) {
+		cfgPath = filepath.Join(*verifDir, cfgPath)
+	}
+	cfg, err := loadCfg(cfgPath)
+	if err != nil {
+		fmt.Fprintln(os.Stderr, err)
+		return 2
+	}
+	if cfg.Replay == nil || cfg.Replay.Disabled {
+		fmt.Fprintln(os.Stderr, "native replay is not available for this check")
+		return 2
+	}
+	abs, _ := filepath.Abs(path)
+	ok, out, err := nativeReplay(cfg, rf.Entry, abs, rf.Label)
+	fmt.Println(tail(out, 30))
+	if err != nil {
+		fmt.Fprintln(os.Stderr, "replay failed to run:", err)
+		return 2
+	}
+	if ok {
+		fmt.Printf("VIOLATION property=%s replay=%s\n", rf.Property, abs)
+		return 1
+	}
+	fmt.Println("the recorded assertion does not fail natively on this tree")
+	return 0
 }
